@@ -228,3 +228,51 @@ func TestBudget(t *testing.T) {
 		}
 	}
 }
+
+// TestLateProbe drives one hand-written schedule: let the first action time out, start the next sequence, then let the
+// late answer of the first action arrive (debugging aid for the late-answer scenarios).
+func TestLateProbe(t *testing.T) {
+	if *flagRole != "lateprobe" {
+		t.Skip()
+	}
+	var sc *Scenario
+	for _, s := range FamilyConc("quick") {
+		if s.Name == "conc-overrun-late-c1-tall" {
+			sc = s
+		}
+	}
+	ticked := false
+	x := RunExecution(t, sc, func(step int, en []string) string {
+		has := func(sub string) string {
+			for _, l := range en {
+				if strings.Contains(l, sub) {
+					return l
+				}
+			}
+			return ""
+		}
+		if !ticked && has("TICK") != "" && has("INV|P0/B0/S0/A0") != "" {
+			ticked = true
+			return "TICK"
+		}
+		if l := has("INV|P0/B0/S0/A0"); l != "" && has("INV|P0/B0/S1/A0") != "" {
+			return l // the late answer while the next sequence's call is pending
+		}
+		if l := has("INV|P0/B0/S0/A0"); l != "" && ticked && len(en) > 1 {
+			for _, o := range en {
+				if o != l && o != "TICK" {
+					return o
+				}
+			}
+			return "TICK"
+		}
+		return en[0]
+	}, monC02{}, ExecOpts{})
+	for _, e := range x.W.Events {
+		fmt.Println("   ", e.String())
+	}
+	for _, v := range x.Violations {
+		fmt.Println("VIOLATION", v.Rule, v.Msg)
+	}
+	fmt.Println("outcome", x.Outcome)
+}
